@@ -351,10 +351,46 @@ Theorem C14_batches_refuted : concat (batches false 3 [1; 2; 3; 4; 5; 6; 7]%Z) =
 Proof. exact batches_refuted. Qed.
 Print Assumptions C14_batches_refuted.
 
+(* several batched calls into one directory (the default ./CUQI_samples/): a single call leaves exactly its batches; with a
+   second call the files are REFUTED as a record of the chain -- every call numbers its files from 0, so the first files of
+   the earlier call are replaced (signature Sampler.sample|batch:next-call-overwrites-files) *)
+Theorem C14_batch_files : forall (A : Type) (fin : bool) (k : nat) (c : list A), batch_files fin k [c] [] = batches fin k c.
+Proof. intros A fin k c. exact (batch_files_one fin k c). Qed.
+Print Assumptions C14_batch_files.
+
+Theorem C14_batch_files_refuted :
+  batch_files true 2 [[1; 2; 3; 4; 5]%Z; [6; 7]%Z] [] = [[6; 7]; [3; 4]; [5]]%Z /\
+  concat (batch_files true 2 [[1; 2; 3; 4; 5]%Z; [6; 7]%Z] []) <> [1; 2; 3; 4; 5; 6; 7]%Z.
+Proof. exact batch_files_refuted. Qed.
+Print Assumptions C14_batch_files_refuted.
+
 (* stateless interface: sample_adapt(N, Nb) is refused (division by the adaptation interval int(0.1 N) = 0) iff N < 10 *)
 Theorem C14_adapt_refusal : forall n : nat, adapt_defined n = true <-> (10 <= n)%nat.
 Proof. exact adapt_defined_iff. Qed.
 Print Assumptions C14_adapt_refusal.
+
+(* HybridGibbs as the composite machine that exists (no checkpoint interface of its own): block samplers bl, one sweep = every
+   block in order, conditioned on the current points of all blocks, taking its inner transitions.  If every block's
+   transition depends on its sampler only through what get_state saves (proj; current_point is a saved key), then block
+   samplers that agree on their saved states record the same chain from then on -- i.e. get_state() of every block loaded
+   into the blocks of a freshly constructed HybridGibbs of the same configuration continues with exactly the sweeps of the
+   uninterrupted run; and N sweeps followed by M sweeps record the chain of N + M sweeps.  (The property asks the Gibbs
+   samplers only for the second statement; the first is what the existing pieces provide, checked behaviourally.) *)
+Theorem C14_gibbs_composite : forall (Bs V Rnd K : Type) (bstep : nat -> list V -> Bs -> Rnd -> Bs) (point : Bs -> V)
+    (proj : Bs -> K) (pk : K -> V),
+  (forall b, point b = pk (proj b)) ->
+  (forall i vs b1 b2 r, proj b1 = proj b2 -> proj (bstep i vs b1 r) = proj (bstep i vs b2 r)) ->
+  (forall (rsss : list (list (list Rnd))) (l1 l2 : list Bs), map proj l1 = map proj l2 ->
+     gibbs_chain Bs V Rnd bstep point l1 rsss = gibbs_chain Bs V Rnd bstep point l2 rsss) /\
+  (forall (r1 r2 : list (list (list Rnd))) (bl : list Bs),
+     gibbs_chain Bs V Rnd bstep point bl (r1 ++ r2) =
+     gibbs_chain Bs V Rnd bstep point bl r1 ++ gibbs_chain Bs V Rnd bstep point (after Bs V Rnd bstep point bl r1) r2).
+Proof.
+  intros Bs V Rnd K bstep point proj pk H1 H2. split.
+  - intros rsss l1 l2. exact (gibbs_chain_proj Bs V Rnd K bstep point proj pk H1 H2 rsss l1 l2).
+  - intros r1 r2 bl. exact (gibbs_chain_app Bs V Rnd bstep point r1 bl r2).
+Qed.
+Print Assumptions C14_gibbs_composite.
 
 (* non-vacuity: a two-component state whose second component is not saved and not read satisfies the hypotheses
    of C14_resume; a small fact record satisfies footprint_ok and reinit_ok; the trace instance runs *)
